@@ -5,7 +5,8 @@ COQ_FILES = ["Model/Base.v", "Gen/Unwind.v", "Model/Unwind.v", "Gen/Regs.v", "Sp
              "Proofs/UnwindProofs.v", "Proofs/RegsProofs.v", "Properties/C05.v"]
 RULES[PID] = ("e2e leg: a debuggee built with -C force-frame-pointers=yes interprets a seeded shape string into nested calls (self recursion, "
               "mutual recursion, closures through dyn Fn, two generic instantiations; depth 1..260 shape letters = up to ~780 frames) and stops in the "
-              "innermost call; the harness walks the saved-frame-pointer chain itself from PTRACE_GETREGS and /proc/<pid>/mem to get the true "
+              "innermost call; every fourth history uses a second debuggee whose call chain changes stacks 1-5 times (heap stacks and stacks inside "
+              "main's frame, through an assembly routine with complete CFI, recursion 0-60 deep on each) so that CFAs go down as well as up walking outwards; the harness walks the saved-frame-pointer chain itself from PTRACE_GETREGS and /proc/<pid>/mem to get the true "
               "(return address, CFA) list down to main; Coq compares the debugger's backtrace with the model fed with that walk (exact) and with the "
               "list itself (spec). At 4 random frames per stop: frame_info CFA / return address vs the walk, and the arguments `acc`/`i` of that "
               "activation (program invariant acc == i). Non-trivial: a return address repeats in the true stack, or > 10 frames; distinct by shape.")
